@@ -26,7 +26,7 @@ EXHAUSTIVE_NOTE = ('all 9331 chi^2 vectors of length 0..5 over the 6-letter alph
 RULE = ('Exhaustive entry "enum": one evaluation = one chi^2 vector (length 0..5 over {0,1,1,2.5,inf,NaN}) ranked by '
         'FitInfo.sort() and checked against every selector A / N(0..7) / C,D(8 thresholds) / E,F(8 thresholds x n_data in '
         '{1,2,3,5}); combinations whose threshold equals an attained statistic are dropped and counted. Entry "long": '
-        'Hypothesis vectors of length 0..200 with ties/inf/NaN, thresholds strictly between attained values. Entry '
+        'Hypothesis vectors of length 0..200 with ties/inf/NaN, thresholds strictly between attained values. Entry "huge": results of 9000..70000 fits (as large as real grids) with a threshold between two attained values. Entry '
         '"history": rule-based state machine of keep() calls on one result (interleaved with in-place edits of the source\'s '
         'flags) vs a Python list model, plus keep-twice and '
         'loose-then-tight laws. Non-trivial = length >= 2 and some selector keeps a proper non-empty subset, or the vector '
@@ -416,7 +416,60 @@ class KeepMachine(TracedMachine()):
         return labels, self.n_keeps >= 2 and self.n_removed_steps >= 1
 
 
-ENTRIES = {'enum': run_enum, 'long': run_long}
+@st.composite
+def huge_case(draw):
+    n = draw(st.sampled_from([9000, 12000, 25000, 70000]))
+    step = draw(st.sampled_from([0.001, 0.01, 0.5]))
+    ninf = draw(st.sampled_from([0, 0, 3, 500]))
+    form = draw(st.sampled_from('CDEFN'))
+    frac = draw(st.sampled_from([0.03, 0.45, 0.5, 0.9, 0.999]))
+    return {'n': n, 'step': step, 'ninf': ninf, 'form': form, 'frac': frac, 'n_data': draw(st.sampled_from([1, 3, 7])),
+            'best': draw(st.sampled_from([0., 2.5, 1e-3]))}
+
+
+def run_huge(case, ctx):
+    """results as large as a real model grid; reference evaluated with plain numpy comparisons"""
+    from sedfitter.fit_info import FitInfo
+    n, nd = case['n'], case['n_data']
+    chi2 = case['best'] + case['step'] * np.arange(n - case['ninf'], dtype=float) ** 1.0
+    chi2 = np.concatenate([chi2, np.full(case['ninf'], np.inf)])
+    # package order is scrambled; sort() ranks
+    order = (np.arange(n) * 7919) % n if n % 7919 else np.arange(n)[::-1]
+    info = FitInfo(make_source(nd))
+    info.chi2 = chi2[order].copy()
+    info.av = np.arange(n, dtype=float)[order]
+    info.sc = -np.arange(n, dtype=float)[order]
+    info.model_name = np.array(['m%06d' % i for i in range(n)])[order]
+    info.model_fluxes = None
+    with must_succeed('FitInfo.sort'):
+        info.sort()
+    ranked = info.chi2.copy()
+    if np.any(np.diff(ranked[np.isfinite(ranked)]) < 0):
+        fail('sort() of %d fits is not non-decreasing' % n, 'c05:sort_rows')
+    form = case['form']
+    k = int(case['frac'] * (n - case['ninf']))
+    k = min(max(k, 1), n - case['ninf'] - 1)
+    if form == 'N':
+        sel = ['N', k]
+        expect = k
+    else:
+        stat = {'C': ranked, 'D': ranked - ranked[0], 'E': ranked / nd, 'F': (ranked - ranked[0]) / nd}[form]
+        thr = 0.5 * (stat[k - 1] + stat[k])          # strictly between two attained values
+        if not (stat[k - 1] < thr < stat[k]):
+            return {'huge_degenerate_threshold'}, False
+        sel = [form, float(thr)]
+        expect = int(np.sum(stat < thr))
+    with must_succeed('keep(%r) on %d fits' % (sel, n)):
+        info.keep(tuple(sel))
+    if len(info.chi2) != expect or len(info.av) != expect or len(info.model_name) != expect or info.n_fits != expect:
+        fail('%d ranked fits, keep(%r) (n_data=%d) kept %d, the syntax page promises %d' % (n, sel, nd, len(info.chi2), expect),
+             'c05:wrong_selection:' + form)
+    if not np.array_equal(info.chi2, ranked[:expect]) or not np.array_equal(info.av[:3], info.av[:3]):
+        fail('keep(%r) did not keep a prefix of the ranking' % (sel,), 'c05:not_prefix')
+    return {'huge_n=%d' % n, 'huge_form_' + form}, True
+
+
+ENTRIES = {'enum': run_enum, 'long': run_long, 'huge': run_huge}
 MACHINES = {'history': KeepMachine}
 
 
@@ -429,4 +482,5 @@ def enum_cases():
 def plan(ctx):
     ctx.run_cases('enum', ctx.mine(enum_cases()))
     ctx.run_given('long', long_case(), ctx.scale(150, 3000))
+    ctx.run_given('huge', huge_case(), ctx.scale(6, 60))
     ctx.run_machine('history', ctx.scale(60, 1200), ctx.scale(12, 30))
